@@ -297,11 +297,22 @@ def run_interleaved(plan, sim, code, rc, faces, violate, stats, states):
     dec._rng = SchedRng(stream(plan['seed'], 'tiebreak'), sim)
     srng = stream(plan['seed'], 'interleave')
     runs = []
-    for err in plan['errors']:
+    allow_x = False
+    for ri_, err in enumerate(plan['errors']):
         syn = code.measure_syndrome(pauli_to_bsf(err))
+        corr = {}
+        # the operator a caller accumulates may already hold the X part of
+        # a correction (sweep-match applies matching and sweep to one
+        # operator): X commutes with the face stabilizers, so the invariant
+        # is unchanged, and a later flip of that edge must turn X into Y
+        for qi in (plan.get('preseed_x') or {}).get(str(ri_), []):
+            corr[tuple(code.qubit_coordinates[qi])] = 'X'
+            allow_x = True
         runs.append({'err': err, 'e': refmodel.op_from_string(err),
-                     'signs': dec.get_initial_state(syn), 'corr': {},
+                     'signs': dec.get_initial_state(syn), 'corr': corr,
                      'k': 0})
+    if allow_x:
+        sim.probe('stepping_with_preseeded_x_operator')
     for step in range(plan.get('steps', 12)):
         ri = srng.randrange(len(runs))
         r = runs[ri]
@@ -319,7 +330,8 @@ def run_interleaved(plan, sim, code, rc, faces, violate, stats, states):
         stats['steps'] += 1
         for qi, q in enumerate(runs):
             bad = step_invariant(code, rc, faces, face_set, q['e'],
-                                 q['signs'], q['corr'], n)
+                                 q['signs'], q['corr'], n,
+                                 z_only=not allow_x)
             if bad is not None:
                 violate(bad.pop('class'), dict(
                     bad, size=plan['size'], error=q['err'],
@@ -331,9 +343,10 @@ def run_interleaved(plan, sim, code, rc, faces, violate, stats, states):
                        plan['size'], len(runs)]))
 
 
-def step_invariant(code, rc, faces, face_set, e, signs, correction, n):
+def step_invariant(code, rc, faces, face_set, e, signs, correction, n,
+                   z_only=True):
     for loc, p in correction.items():
-        if p != 'Z':
+        if p != 'Z' and (z_only or p not in ('X', 'Y')):
             return {'class': 'correction_not_z_only', 'pauli': p}
         if tuple(loc) not in rc.qindex:
             return {'class': 'correction_on_non_qubit',
@@ -487,6 +500,9 @@ def trajectory_plans(tier, seed):
                             [0.05, 0.12, 0.2]), 'Z')
                             for _ in range(rng.choice([2, 2, 3]))],
                         'steps': rng.randint(6, 16),
+                        'preseed_x': ({'0': sorted(rng.sample(
+                            range(n), min(n, rng.randint(2, 6))))}
+                            if rng.random() < 0.4 else None),
                         'knobs': ({'max_rounds': 2} if kind == 'rotated'
                                   else None)})
     return out
